@@ -6,6 +6,7 @@ import (
 	"io"
 	"log"
 	"net/netip"
+	"sync/atomic"
 	"time"
 
 	"github.com/IrineSistiana/mosproxy/internal/dnsmsg"
@@ -16,7 +17,8 @@ import (
 	"github.com/valyala/fasthttp"
 )
 
-func (r *router) startFastHttpServer(cfg *ServerConfig) (*fasthttp.Server, error) {
+// startFastHttpServer returns a func that shuts the server down and closes its listener.
+func (r *router) startFastHttpServer(cfg *ServerConfig) (func(), error) {
 	const defaultIdleTimeout = time.Second * 30
 	idleTimeout := time.Duration(cfg.IdleTimeout) * time.Second
 	if idleTimeout <= 0 {
@@ -50,14 +52,23 @@ func (r *router) startFastHttpServer(cfg *ServerConfig) (*fasthttp.Server, error
 		Logger:                       log.New(mlog.WriteToLogger(*h.logger, "redirected fasthttp log", "msg"), "", 0),
 	}
 
+	var closed atomic.Bool
 	go func() {
 		defer l.Close()
 		err := s.Serve(l)
-		if err != nil {
+		if err != nil && !closed.Load() {
 			r.fatal("fasthttp server exited", err)
 		}
 	}()
-	return s, nil
+	closer := func() {
+		closed.Store(true)
+		s.Shutdown()
+		// Shutdown only knows the listener once Serve has been entered.
+		// Close it here as well, so that it is released even if the
+		// router is closed right after this server was started.
+		l.Close()
+	}
+	return closer, nil
 }
 
 type fasthttpHandler struct {
